@@ -87,11 +87,21 @@ def strip_coq_comments(s):
     return ''.join(out)
 
 
+def project_files():
+    """the .v files of the development = those listed in _CoqProject"""
+    out = []
+    for line in open(os.path.join(COQ, '_CoqProject')):
+        line = line.strip()
+        if line.endswith('.v') and not line.startswith('-'):
+            out.append(os.path.join(COQ, line))
+    return out
+
+
 def grep_gate():
     """No Admitted/admit/Axiom/Parameter/... anywhere in the development.  Variable/Hypothesis are
     only allowed inside a Section (we simply forbid them outside `Section ... End`)."""
     bad = []
-    for f in sorted(glob.glob(os.path.join(COQ, 'theories', '*.v')) + glob.glob(os.path.join(COQ, 'props', '*.v'))):
+    for f in project_files():
         src = strip_coq_comments(open(f).read())
         depth = 0
         for ln, line in enumerate(src.split('\n'), 1):
@@ -124,8 +134,7 @@ def coq_build():
 def prop_cone(prop_file):
     """.v files the property file depends on (transitively), via coqdep."""
     rc, out = _run(['coqdep', '-Q', 'theories', 'LD', '-Q', 'props', 'LD.P'] +
-                   sorted(glob.glob(os.path.join(COQ, 'theories', '*.v'))) +
-                   sorted(glob.glob(os.path.join(COQ, 'props', '*.v'))), 60, cwd=COQ)
+                   project_files(), 60, cwd=COQ)
     deps = {}
     for line in out.split('\n'):
         if ':' not in line:
